@@ -258,7 +258,7 @@ pub fn families(ctx: &Ctx) -> Vec<Family> {
         .exhaustive(),
     );
 
-    fams.push(Family::new("soup", tier.pick(200, 3000), |_c, rng, emit| {
+    fams.push(Family::new("soup", tier.pick(200, 1200), |_c, rng, emit| {
         for _ in 0..50 {
             let n = 1 + rng.below(8);
             let mut text = soup_program(rng, n);
@@ -275,7 +275,7 @@ pub fn families(ctx: &Ctx) -> Vec<Family> {
         }
     }));
 
-    fams.push(Family::new("soup-typing-states", tier.pick(150, 2400), |_c, rng, emit| {
+    fams.push(Family::new("soup-typing-states", tier.pick(150, 900), |_c, rng, emit| {
         let alpha = tok::alphabet();
         for _ in 0..50 {
             let n = 1 + rng.below(5);
@@ -297,7 +297,7 @@ pub fn families(ctx: &Ctx) -> Vec<Family> {
     }));
 
     // well-formed multi-file programs (rich symbol tables), whole and as typing states
-    fams.push(Family::new("sem", tier.pick(60, 1000), |_c, rng, emit| {
+    fams.push(Family::new("sem", tier.pick(60, 360), |_c, rng, emit| {
         for _ in 0..50 {
             let p = crate::gen::sem::program(rng, crate::gen::sem::Opts::WithProbes);
             let mut files = p.files.clone();
@@ -330,7 +330,7 @@ pub fn families(ctx: &Ctx) -> Vec<Family> {
         }
     }));
 
-    fams.push(Family::new("gram", tier.pick(48, 800), |_c, rng, emit| {
+    fams.push(Family::new("gram", tier.pick(48, 300), |_c, rng, emit| {
         for _ in 0..50 {
             let budget = [30, 80, 160][rng.below(3)];
             let (_, text) = gram::program(rng, GramOpts { budget, includes: false, ..Default::default() });
